@@ -89,6 +89,12 @@ def modules():
     add('rlfq', lambda: ResidualLFQ(dim=3, codebook_size=8, num_quantizers=3), 3, single=False)
     add('latent', lambda: LatentQuantize(levels=[5, 4], dim=2), 2, single=False)
     add('rpq', lambda: RandomProjectionQuantizer(dim=4, codebook_size=8, codebook_dim=3, num_codebooks=2), 4, single=False)
+    # all-pairs option sets of FSQ / LFQ / residual stacks (sequence layout; vlib/zoo.py)
+    from vlib import zoo
+    for kind in ('fsq', 'lfq', 'res'):
+        for zname, zc, zmk in zoo.class_configs(kind):
+            if zc['layout'] == 'seq':
+                add(zname, zmk, zoo.zoo_dim(kind, zc), single=False)
     return M
 
 
